@@ -1,0 +1,14 @@
+//go:build verif
+
+package main
+
+// vtHook is installed by the verification harness (build tag verif only).
+// While it is nil every vt call is inert.
+var vtHook func(ev string, kv ...interface{})
+
+// vt reports a verification trace event at a linearization point.
+func vt(ev string, kv ...interface{}) {
+	if h := vtHook; h != nil {
+		h(ev, kv...)
+	}
+}
